@@ -1,20 +1,214 @@
 package trzsz
 
-func verifNondetByte() byte
-func verifNondetInt() int
-func verifNondetBool() bool
-func verifNondetRange(lo, hi int) int
-func verifAssume(bool)
-func verifAssert(bool, string)
-func verifReach(string)
-func verifExpectBlock(int)
+// C12 — no input from the other side can crash the process.
+// One harness per consumer of a peer-controlled number or byte string. Numbers are arbitrary 64-bit values (they
+// travel through the real line framing as numeric tokens), byte strings are short and fully symbolic. The oracle is
+// implicit: a Go panic on any path, or an allocation above 2 GiB on the strength of one length field, is a violation.
 
-func zzH_C12_readBinary() {
-	b := newTrzszBuffer()
-	b.addBuffer([]byte("abc"))
-	size := verifNondetInt()
-	data, err := b.readBinary(size, nil)
-	_ = data
-	_ = err
-	verifReach("returned")
+import (
+	"encoding/json"
+	"strconv"
+)
+
+type zzSink12 struct{ n int }
+
+func (s *zzSink12) Write(p []byte) (int, error) { s.n += len(p); return len(p), nil }
+
+func zzTransfer12() *trzszTransfer {
+	t := newTransfer(&zzSink12{}, nil, false, nil)
+	t.transferConfig.Timeout = 0
+	return t
+}
+
+func zzSymBytes12(n int) []byte {
+	b := make([]byte, n)
+	for i := range b {
+		b[i] = verifNondetByte()
+	}
+	return b
+}
+
+// #DATA:<n> with any n, protocol 1 receiver (recvData -> readBinary -> unescapeData)
+func zzH_C12_recvData() {
+	t := zzTransfer12()
+	t.transferConfig.Binary = true
+	n := verifNondetInt()
+	t.buffer.addBuffer([]byte("#DATA:" + strconv.FormatInt(int64(n), 10) + "\n"))
+	t.buffer.addBuffer([]byte("abcdefgh"))
+	t.stopped.Store(false)
+	go func() { verifQuiesce(); t.stopTransferringFiles(false) }() // whatever it waits for never arrives: the user stops
+	_, err := t.recvData()
+	if err != nil {
+		verifReach("error")
+	} else {
+		verifReach("data")
+	}
+}
+
+// #DATA:<n> with any n, pipeline receiver (pipelineRecvBinaryData)
+func zzH_C12_recvBinaryData() {
+	t := zzTransfer12()
+	t.transferConfig.Binary = true
+	t.transferConfig.Protocol = verifNondetRange(2, 4)
+	n := verifNondetInt()
+	t.buffer.addBuffer([]byte("#DATA:" + strconv.FormatInt(int64(n), 10) + "\n"))
+	t.buffer.addBuffer([]byte("abcdefgh"))
+	go func() { verifQuiesce(); t.stopTransferringFiles(false) }()
+	_, _, err := t.pipelineRecvBinaryData()
+	if err != nil {
+		verifReach("error")
+	} else {
+		verifReach("data")
+	}
+}
+
+type zzFile12 struct{ zzWriter12 }
+type zzWriter12 struct{}
+
+// resume hash exchange: HASH records with any step
+func zzH_C12_recvPrefixHash() {
+	root := verifFSRoot()
+	verifFSAddFile(root+"/f", []byte("0123456789"))
+	verifFSBegin()
+	t := zzTransfer12()
+	t.transferConfig.Protocol = 4
+	t.transferConfig.Overwrite = true
+	js, err := json.Marshal(&sourceFile{PathID: 0, RelPath: []string{"f"}, Size: 10})
+	verifAssume(err == nil)
+	t.buffer.addBuffer([]byte("#NAME:" + encodeString(string(js)) + "\n"))
+	for k := 0; k < 2; k++ {
+		h := &prefixHash{Step: int64(verifNondetInt()), Hash: "00"}
+		hj, err := json.Marshal(h)
+		verifAssume(err == nil)
+		t.buffer.addBuffer([]byte("#HASH:" + encodeString(string(hj)) + "\n"))
+	}
+	oj, err := json.Marshal(&prefixHash{Over: true})
+	verifAssume(err == nil)
+	t.buffer.addBuffer([]byte("#HASH:" + encodeString(string(oj)) + "\n"))
+	f, _, err := t.recvFileNameV3(root, nil)
+	if f != nil {
+		f.Close()
+	}
+	if err != nil {
+		verifReach("error")
+	} else {
+		verifReach("resumed")
+	}
+}
+
+// per-chunk ack "<len>/<step>" and final ack "<step>" with any values, progress display attached
+func zzH_C12_acks() {
+	t := zzTransfer12()
+	t.transferConfig.Protocol = verifNondetRange(2, 4)
+	length, step := verifNondetInt(), verifNondetInt()
+	t.buffer.addBuffer([]byte("#SUCC:" + strconv.FormatInt(int64(length), 10) + "/" + strconv.FormatInt(int64(step), 10) + "\n"))
+	l, s, _, err := t.pipelineRecvCurrentAck()
+	if err == nil {
+		verifAssert(l == int64(length), "ack length misparsed")
+		verifAssert(s == int64(step), "ack step misparsed")
+		p := newTextProgressBar(&zzSink12{}, int32(verifNondetRange(5, 200)), 0, "", "")
+		p.onNum(1)
+		p.onName("f")
+		p.onSize(int64(verifNondetRange(0, 1000)))
+		p.onStep(s) // what pipelineShowProgress does with it, in a goroutine without recover
+		verifReach("ack")
+	} else {
+		verifReach("error")
+	}
+}
+
+// short garbage where a number is expected
+func zzH_C12_garbageNumber() {
+	t := zzTransfer12()
+	t.transferConfig.Binary = true
+	g := zzSymBytes12(verifNondetRange(0, verifBound("G")))
+	for _, c := range g {
+		verifAssume(c != '\n')
+	}
+	t.buffer.addBuffer(append(append([]byte("#DATA:"), g...), '\n'))
+	t.buffer.addBuffer([]byte("abcdefgh"))
+	go func() { verifQuiesce(); t.stopTransferringFiles(false) }()
+	_, err := t.recvData()
+	if err != nil {
+		verifReach("error")
+	} else {
+		verifReach("data")
+	}
+}
+
+// arbitrary lines through the typed-line check, tmux junk stripping and the Windows reader
+func zzH_C12_lines() {
+	t := zzTransfer12()
+	mode := verifNondetRange(0, 2)
+	if mode == 1 {
+		t.transferConfig.TmuxOutputJunk = true
+	} else if mode == 2 {
+		t.windowsProtocol = true
+	}
+	line := zzSymBytes12(verifBound("L"))
+	if mode == 2 {
+		line = append(line, '!')
+	} else {
+		line = append(line, '\n')
+	}
+	t.buffer.addBuffer(line)
+	go func() { verifQuiesce(); t.stopTransferringFiles(false) }()
+	_, err := t.recvCheck("SUCC", false, nil)
+	if err != nil {
+		verifReach("error")
+	} else {
+		verifReach("line")
+	}
+}
+
+// escaped data with arbitrary bytes against the escape-all table
+func zzH_C12_unescape() {
+	t := zzMkTable12()
+	data := zzSymBytes12(verifBound("L"))
+	dstLen := verifNondetRange(0, 3)
+	var dst []byte
+	if dstLen > 0 {
+		dst = make([]byte, dstLen)
+	}
+	_, _, err := unescapeData(data, t, dst)
+	if err != nil {
+		verifReach("error")
+	} else {
+		verifReach("decoded")
+	}
+}
+
+func zzMkTable12() *escapeTable {
+	t := &escapeTable{totalCount: 3, escapeCodes: make([]*byte, 256), unescapeCodes: make([]*byte, 256)}
+	for _, p := range [][2]byte{{0xee, 0xee}, {0x7e, 0x31}, {0x02, 'A'}} {
+		a, b := p[0], p[1]
+		t.escapeCodes[a] = &b
+		t.unescapeCodes[b] = &a
+	}
+	return t
+}
+
+// terminal output scanned by the detectors: arbitrary bytes around the literals they look for
+func zzH_C12_detectors() {
+	n := verifBound("N")
+	buf := zzSymBytes12(n)
+	switch verifNondetRange(0, 3) {
+	case 1:
+		buf = append(buf, "::TRZSZ:TRANSFER:"...)
+		buf = append(buf, zzSymBytes12(n)...)
+		for len(buf) < 24 {
+			buf = append(buf, ' ')
+		}
+	case 2:
+		buf = append(buf, "**\x18B0"...)
+		buf = append(buf, zzSymBytes12(n)...)
+	case 3:
+		buf = append(buf, "\x1b]52;c;"...)
+		buf = append(buf, zzSymBytes12(n)...)
+	}
+	det := newTrzszDetector(verifNondetBool(), verifNondetBool())
+	out, _ := det.detectTrzsz(buf, verifNondetBool())
+	verifAssert(len(out) >= len(buf), "detector shortened the output")
+	detectZmodem(buf)
+	verifReach("scanned")
 }
